@@ -32,6 +32,8 @@ fn durations() -> Vec<(Duration, bool)> {
 struct Ctx<'a> {
     report: &'a mut Report,
     prop: String,
+    order_base: u64,
+    orders_seen: std::collections::HashSet<u64>,
 }
 
 impl Ctx<'_> {
@@ -55,6 +57,8 @@ struct Knobs {
     ttl: Option<Duration>,
     tti: Option<Duration>,
     with_hasher: bool,
+    /// which permutation of the five setters is used (see `cut::setter_order`)
+    order: u64,
 }
 
 fn build_and_check(ctx: &mut Ctx, kind: Kind, k: Knobs, must_panic: Option<&'static str>) {
@@ -65,40 +69,68 @@ fn build_and_check(ctx: &mut Ctx, kind: Kind, k: Knobs, must_panic: Option<&'sta
         match kind {
             Kind::Unsync => {
                 let mut b = mini_moka::unsync::Cache::<TK, TV>::builder();
-                if let Some(c) = k.cap {
-                    b = b.max_capacity(c);
-                }
-                if let Some(c) = k.icap {
-                    b = b.initial_capacity(c);
-                }
-                if k.weigher {
-                    b = b.weigher(|_k, v: &TV| v.weight);
-                }
-                if let Some(d) = k.ttl {
-                    b = b.time_to_live(d);
-                }
-                if let Some(d) = k.tti {
-                    b = b.time_to_idle(d);
+                for s in mmv::cut::setter_order(k.order) {
+                    match s {
+                        0 => {
+                            if let Some(c) = k.cap {
+                                b = b.max_capacity(c);
+                            }
+                        }
+                        1 => {
+                            if let Some(c) = k.icap {
+                                b = b.initial_capacity(c);
+                            }
+                        }
+                        2 => {
+                            if k.weigher {
+                                b = b.weigher(|_k, v: &TV| v.weight);
+                            }
+                        }
+                        3 => {
+                            if let Some(d) = k.ttl {
+                                b = b.time_to_live(d);
+                            }
+                        }
+                        _ => {
+                            if let Some(d) = k.tti {
+                                b = b.time_to_idle(d);
+                            }
+                        }
+                    }
                 }
                 let p = if k.with_hasher { b.build_with_hasher(TestBuildHasher(HashMode::Identity)).policy() } else { b.build().policy() };
                 (p.max_capacity(), p.time_to_live(), p.time_to_idle())
             }
             Kind::Sync => {
                 let mut b = mini_moka::sync::Cache::<TK, TV>::builder();
-                if let Some(c) = k.cap {
-                    b = b.max_capacity(c);
-                }
-                if let Some(c) = k.icap {
-                    b = b.initial_capacity(c);
-                }
-                if k.weigher {
-                    b = b.weigher(|_k, v: &TV| v.weight);
-                }
-                if let Some(d) = k.ttl {
-                    b = b.time_to_live(d);
-                }
-                if let Some(d) = k.tti {
-                    b = b.time_to_idle(d);
+                for s in mmv::cut::setter_order(k.order) {
+                    match s {
+                        0 => {
+                            if let Some(c) = k.cap {
+                                b = b.max_capacity(c);
+                            }
+                        }
+                        1 => {
+                            if let Some(c) = k.icap {
+                                b = b.initial_capacity(c);
+                            }
+                        }
+                        2 => {
+                            if k.weigher {
+                                b = b.weigher(|_k, v: &TV| v.weight);
+                            }
+                        }
+                        3 => {
+                            if let Some(d) = k.ttl {
+                                b = b.time_to_live(d);
+                            }
+                        }
+                        _ => {
+                            if let Some(d) = k.tti {
+                                b = b.time_to_idle(d);
+                            }
+                        }
+                    }
                 }
                 let p = if k.with_hasher { b.build_with_hasher(TestBuildHasher(HashMode::Identity)).policy() } else { b.build().policy() };
                 (p.max_capacity(), p.time_to_live(), p.time_to_idle())
@@ -136,6 +168,8 @@ fn lattice(ctx: &mut Ctx) {
     let icaps = [None, Some(0usize), Some(1), Some(1000)];
     let mut durs: Vec<(Option<Duration>, bool)> = vec![(None, false)];
     durs.extend(durations().into_iter().map(|(d, p)| (Some(d), p)));
+    // every combination is built with another order of the setter calls (all 120 orders occur)
+    let mut order = ctx.order_base;
     for kind in [Kind::Unsync, Kind::Sync] {
         for cap in caps {
             for icap in icaps {
@@ -143,7 +177,9 @@ fn lattice(ctx: &mut Ctx) {
                     for (ttl, tp) in &durs {
                         for (tti, ip) in &durs {
                             for with_hasher in [false, true] {
-                                let k = Knobs { cap, icap, weigher, ttl: *ttl, tti: *tti, with_hasher };
+                                order += 1;
+                                let k = Knobs { cap, icap, weigher, ttl: *ttl, tti: *tti, with_hasher, order };
+                                ctx.orders_seen.insert(order % 120);
                                 let must = if *tp { Some("time_to_live") } else if *ip { Some("time_to_idle") } else { None };
                                 build_and_check(ctx, kind, k, must);
                             }
@@ -361,9 +397,11 @@ fn main() {
     let mut report = Report { engine: "cfgmon".into(), ..Default::default() };
     let mut rng = Rng::new(seed ^ 0xCF6);
     {
-        let mut ctx = Ctx { report: &mut report, prop: args.str("prop", "C17") };
+        let mut ctx = Ctx { report: &mut report, prop: args.str("prop", "C17"), order_base: seed.wrapping_mul(7919), orders_seen: Default::default() };
         if shard == 0 {
             lattice(&mut ctx);
+            let n = ctx.orders_seen.len() as u64;
+            ctx.report.stats.add("setter_call_orders_used", n);
             behaviour(&mut ctx, &mut rng);
             ctx.report.distinct.entry("C17".into()).or_default().push(1);
             ctx.report.distinct.entry("C17".into()).or_default().push(2);
